@@ -1,6 +1,7 @@
 package c02
 
 import (
+	"encoding/base64"
 	"fmt"
 	"strings"
 
@@ -340,6 +341,51 @@ func structuredCases(thorough bool, emit func(c scaseS)) {
 		}
 	}
 
+	// ---- 14. inline source maps (a trailing //# sourceMappingURL=data: comment is honoured in any source)
+	maps := []string{
+		`{"version":3,"sources":["a.js"],"names":[],"mappings":"AAAA;AACA"}`,
+		`{"version":3,"sources":[],"names":[],"mappings":"AAAC;AAAC"}`,
+		`{"version":3,"sources":["a.js"],"names":[],"mappings":"ACAA;AEAA"}`,
+		`{"version":3,"sources":["a.js"],"names":[],"mappings":"AAAAE"}`,
+		`{"version":3,"sources":["a.js"],"names":["n"],"mappings":"AAAAC;AAAAE"}`,
+		`{"version":3,"sources":["a.js"],"names":[],"mappings":"ADDD;ADDD"}`,
+		`{"version":3,"sources":["a.js"],"names":[],"mappings":""}`,
+		`{"version":3,"sources":["a.js"],"names":[],"mappings":";;;;"}`,
+		`{"version":3,"sources":["a.js"],"names":[],"mappings":"!!!!"}`,
+		`{"version":3,"sources":["a.js"],"names":[],"mappings":"A"}`,
+		`{"version":3,"sources":["a.js"],"names":[],"mappings":"gggggggggggggggggggggggggggggggggB"}`,
+		`{"version":3,"sections":[{"offset":{"line":0,"column":0},"map":{"version":3,"sources":[],"names":[],"mappings":"AAAC"}}]}`,
+		`{"version":2,"sources":["a.js"],"mappings":"AAAA"}`,
+		`{"version":3}`, `{}`, `[]`, `null`, `{"version":3,"sources":[1],"names":[2],"mappings":3}`, `{"version":3,"sources":null,"names":null,"mappings":"AAAA"}`,
+		`{"version":3,"sourceRoot":"\u0000","sources":["\ud800"],"names":[],"mappings":"AAAA,CAAC,CAAC;AACD"}`, `not json`, ``,
+	}
+	smScripts := []string{`var e = new Error("x"); e.stack`, `undefinedFunction()`, `throw new TypeError("t")`, `(function f(){ return new Error("in f").stack })()`,
+		`1 +`, `null.x`, `eval("nope()")`, `1`, `(function(){ try { nope() } catch (e) { return e.stack } })()`, `new Function("return nope()")()`}
+	for mi, m := range maps {
+		for si, sc := range smScripts {
+			for ei, enc := range []string{"std", "raw", "broken"} {
+				payload := m
+				switch enc {
+				case "std":
+					payload = "data:application/json;base64," + base64.StdEncoding.EncodeToString([]byte(m))
+				case "raw":
+					payload = "data:application/json," + m
+				case "broken":
+					payload = "data:application/json;base64,@@" + base64.StdEncoding.EncodeToString([]byte(m))
+				}
+				emit(scaseS{Key: group("sourcemap", mi, si, ei), Src: sc + "\n//# sourceMappingURL=" + payload})
+			}
+		}
+	}
+
+	// ---- 15. apply / bind / construct with an array-like whose length claims billions of elements
+	for li, l := range []string{`-1`, `4294967295`, `4294967294`, `2147483648`, `1e9`} {
+		for fi, form := range []string{`(function(){}).apply(null, X)`, `Math.max.apply(null, X)`, `Function.prototype.apply.call(function(){}, null, X)`,
+			`new (Function.prototype.bind.apply(function(){}, X))()`, `Function.prototype.call.apply(function(){}, X)`, `String.fromCharCode.apply(null, X)`, `Array.apply(null, X)`} {
+			emit(scaseS{Key: group("apply-huge", li, fi), Src: fmt.Sprintf("(function(){ var X = {length: %s}; try { return typeof (%s) } catch (e) { return e.name } })()", l, form)})
+		}
+	}
+
 	// ---- 12. percent escapes and lone surrogates
 	pct := []string{"%", "%4", "%41", "%E0", "%E0%A4", "%E0%A4%A", "%C0%80", "%ED%A0%80", "%FF", "%zz", "a", "%u0041", "%u00", "%F0%9F%98%80", "%F0%9F", "%80", "%25", ";/?:@&=+$,#"}
 	ufns := []string{"decodeURI", "decodeURIComponent", "unescape", "encodeURI", "encodeURIComponent", "escape"}
@@ -416,7 +462,7 @@ func execStructured(r *rc, base *otto.Otto, c scaseS) {
 			return
 		}
 	}
-	res := ox.Run(vm, c.Src)
+	res := ox.Guard(func() (otto.Value, error) { v, err := vm.Run(c.Src); touchErr(err); return v, err })
 	var acc, cp ox.Result
 	if !res.Panicked && res.Err == nil {
 		acc = ox.Guard(func() (otto.Value, error) {
